@@ -48,6 +48,9 @@ def pmap(fn, items, nproc=None, chunksize=1):
                 raise HarnessError(val)
             out.append(val)
         return out
+    from tcv import scratch
+
+    scratch.root()  # workers nest their scratch roots inside this one; it is removed when this process exits
     ctx = mp.get_context('fork')
     with ctx.Pool(min(nproc, len(items)), initializer=_init) as pool:
         res = pool.map(_call, [(fn, it) for it in items], chunksize=chunksize)
